@@ -54,6 +54,7 @@ pub fn dispatch(line: &str) -> String {
         "pairfile" => pair::pairfile(&toks),
         "fstw" => fstw::fstw(&toks),
         "hier" => hier::hier(&toks),
+        "pydump" => debugcmd::pydump(&toks),
         "isfst" => debugcmd::isfst(&toks),
         "dumpfile" => debugcmd::dumpfile(&toks),
         "entryvcd" => entry::entryvcd(&toks),
